@@ -28,6 +28,7 @@ import ast
 from dataclasses import dataclass
 
 from core.flow import Flow, Spec
+from core.fold import fold
 from core.loader import AnalysisError, FuncInfo, Repo, ancestors, calls_in, norm, own_nodes, parent
 from core.types import STR, Types, elem_type, members
 
@@ -225,6 +226,8 @@ def name_flow(repo: Repo) -> Flow:
                 out.add("NAME")
             elif (isinstance(fn, ast.Name) and fn.id in NAME_FUNCS) or (isinstance(fn, ast.Attribute) and fn.attr in NAME_FUNCS):
                 out.add("NAME")
+            elif isinstance(fn, ast.Attribute) and fn.attr == "replace" and len(e.args) == 2 and _const_str(e.args[1]) == "." and ((repo.resolve_name(f.module, e.args[0]) or "") in ("os.sep", "os.path.sep") if isinstance(e.args[0], (ast.Name, ast.Attribute)) else _const_str(e.args[0]) in ("/", "\\")):
+                out.add("NAME")  # a path written in dot notation: a module name by construction
             elif isinstance(fn, ast.Attribute) and fn.attr in ("pop", "get") and e.args and _const_str(e.args[0]) == "aliases":
                 out.add("NAME")  # the public `aliases` option of draw(): a mapping keyed by module names
         elif isinstance(e, ast.Subscript) and isinstance(e.ctx, ast.Load) and _const_str(e.slice) == "aliases":
@@ -1934,6 +1937,10 @@ def _scan(repo: Repo) -> list[Site]:
                         sites.append(Site(f, n, op, hay, needle, False, "not-name" if s else "unclassified", f"haystack `{norm(hay, 40)}` is not derived from a module name" if s else "provenance of the haystack unknown"))
                     continue
                 const = _const_str(needle)
+                if const is None and isinstance(needle, (ast.Name, ast.Attribute, ast.JoinedStr, ast.BinOp)) and "NAME" not in tagged(needle):
+                    const = fold(repo, f.module, needle, f)  # a module-level / local constant
+                    if const is None and isinstance(needle, ast.Attribute):
+                        const = _attr_constant(repo, T, f, needle)
                 group = "relation"
                 if op in ("startswith", "removeprefix"):
                     if const is not None and not const.endswith("."):
